@@ -2,6 +2,7 @@ import Guard
 import Guard.Judge.C02
 import Guard.Spec.Spec
 import Guard.Model.Cli
+import Guard.Model.Report
 import Lean.Data.Json
 /-
   guard_model — line-protocol driver for the executable model.
@@ -255,6 +256,32 @@ partial def recJson : Rec → Json
 
 def siteName (s : PanicSite) : String := reprStr s
 
+def qrPath : QR → Json
+  | .literal v | .resolved v => sOf v.path.ptr
+  | .unresolved ur => sOf ur.traversedTo.path.ptr
+
+partial def crJson : CR → Json
+  | .rule n m cs => Json.mkObj [("Rule", Json.mkObj [("name", sOf n), ("msg", optS m), ("checks", Json.arr (cs.map crJson).toArray)])]
+  | .block none => Json.mkObj [("Block", Json.mkObj [("unres", Json.null)])]
+  | .block (some c) => Json.mkObj [("Block", Json.mkObj [("unres", match c with | .missingBlockValue f => qrPath f | _ => Json.null)])]
+  | .disjunctions cs => Json.mkObj [("Disjunctions", Json.arr (cs.map crJson).toArray)]
+  | .clause c =>
+    let leaf (k c' : String) (fr : Json) (to : List Json) (m : Option Str) : Json :=
+      Json.mkObj [("Clause", Json.mkObj [("k", k), ("c", c'), ("from", fr), ("to", Json.arr to.toArray), ("msg", optS m)])]
+    match c with
+    | .unary f _ _ m => leaf "Unary" (match f with | .unresolved _ => "UnResolved" | _ => "Resolved") (qrPath f) [] m
+    | .noValueForEmptyCheck m => leaf "Unary" "Context" Json.null [] (m.map fun s => s.map fun ch => if ch == '\n' then ';' else ch)
+    | .dependentRule r m => leaf "Unary" "Context" (sOf r) [] m
+    | .comparison f t _ _ m =>
+      (match f, t with
+       | .unresolved _, _ => leaf "Binary" "UnResolved" (qrPath f) [] m
+       | _, some (.unresolved u) => leaf "Binary" "UnResolved" (qrPath (.unresolved u)) [] m
+       | _, some t' => leaf "Binary" "Resolved" (qrPath f) [qrPath t'] m
+       | _, none => leaf "Binary" "?" Json.null [] m)
+    | .inComparison f t _ _ m =>
+      leaf "Binary" "InResolved" (qrPath f) ((t.filter QR.isResolvedOnly).map qrPath) m
+    | _ => Json.null
+
 def parseStatus (s : String) : Status :=
   match s with | "PASS" => .pass | "FAIL" => .fail | _ => .skip
 
@@ -264,9 +291,19 @@ partial def parseRec (j : Json) : Rec :=
   let s := parseStatus (jstr (jfield j "s"))
   let n := jstrL (jfield j "n")
   let dummy : QR := .resolved (.null Path.root)
+  let qrOf (q : Json) : QR :=
+    if jisNull q then dummy
+    else if !jisNull (jfield q "unres") then
+      .unresolved { traversedTo := .null { ptr := jstrL (jfield q "unres") }, remaining := jstrL (jfield q "rem") }
+    else .resolved (.null { ptr := jstrL (jfield q "res") })
+  let msg := joptStr (jfield j "msg")
+  let fromQ := qrOf (jfield j "from")
+  let toJ := jfield j "to"
+  let toOpt : Option QR := if jisNull toJ then none else some (qrOf toJ)
+  let toList : List QR := (jarr toJ).map qrOf
   let k : RecKind := match jstr (jfield j "k") with
     | "FileCheck" => .fileCheck s
-    | "RuleCheck" => .ruleCheck n s none
+    | "RuleCheck" => .ruleCheck n s msg
     | "RuleCondition" => .ruleCondition s
     | "TypeCheck" => .typeCheck n s
     | "TypeCondition" => .typeCondition s
@@ -280,12 +317,12 @@ partial def parseRec (j : Json) : Rec :=
     | _ =>
       .clauseValueCheck (match jstr (jfield j "v") with
         | "Success" => .success
-        | "Comparison" => .comparison dummy none .eq false none
-        | "InComparison" => .inComparison dummy [] .in_ false none
-        | "Unary" => .unary dummy .exists_ false none
-        | "NoValueForEmptyCheck" => .noValueForEmptyCheck none
-        | "DependentRule" => .dependentRule [] none
-        | _ => .missingBlockValue dummy)
+        | "Comparison" => .comparison fromQ toOpt .eq false msg
+        | "InComparison" => .inComparison fromQ toList .in_ false msg
+        | "Unary" => .unary fromQ .exists_ false msg
+        | "NoValueForEmptyCheck" => .noValueForEmptyCheck msg
+        | "DependentRule" => .dependentRule (jstrL (jfield j "rule")) msg
+        | _ => .missingBlockValue fromQ)
   .node k ch
 
 /-- first inconsistent node (pre-order), as a path of child indices -/
@@ -354,6 +391,21 @@ def handle (j : Json) : Json :=
       | "test-dir-structured" => Cli.testDirStructured Cli.T_OK ((jarr (jfield j "rules")).map testRules)
       | _ => -1
     Json.mkObj [("id", id), ("exit", toJson code)]
+  | "report" =>
+    -- the structured report the model derives from a (canonical, detailed) record tree
+    -- several trees (several rules files against one data file) are combined like
+    -- `CommonStructuredReporter::report` does, starting from the default report
+    let trees := (jarr (jfield j "trees")).map parseRec
+    let reps := trees.map fileReport
+    let folded : Option FileReport := reps.foldl (fun acc r => match acc, r with
+      | some a, some b => some (a.combine b)
+      | _, _ => none) (some FileReport.empty)
+    match folded with
+    | some r => Json.mkObj [("id", id), ("status", Json.str r.status.toStr),
+        ("compliant", Json.arr (r.compliant.map sOf).toArray),
+        ("not_applicable", Json.arr (r.notApplicable.map sOf).toArray),
+        ("not_compliant", Json.arr (r.notCompliant.map crJson).toArray)]
+    | none => Json.mkObj [("id", id), ("report", Json.null)]
   | "consistent" =>
     let t := parseRec (jfield j "tree")
     let ok := Consistent t
